@@ -173,6 +173,24 @@ PROPS["C17"] = dict(
     floor=dict(quick=2000, thorough=20000),
 )
 
+PROPS["C14"] = dict(
+    level="exploration",
+    technique="rapidcheck differential testing of GCM/CCM/EAX against OpenSSL EVP (GCM, CCM) and a harness EAX built on OpenSSL CMAC + single-block AES, with generated AAD/message splits, context reuse, EAX saved-state shortcuts, truncated tags, single-bit tampering and the RFC 3610 parameter predicate; split enumerator",
+    rule=("case = (mode, AES implementation among big/small/ct/ct64/x86ni, GHASH implementation, key 16/24/32, nonce length 1..64 (GCM, EAX) or "
+          "7..13 (CCM), tag length, AAD and message lengths 0..600 biased to block boundaries, split of the AAD over up to 4 inject calls and of the "
+          "message over up to 4 run calls incl. empty calls, first unrelated message on the same context, EAX pre-/post-AAD saved state, one "
+          "generated bit flip in nonce / AAD / ciphertext / tag) or a br_ccm_reset parameter probe (nonce 0..19, tag 0..19, declared length "
+          "around 2^16 / 2^24). non-trivial = AAD and message non-empty and at least one of them split; distinct = (mode, impl, key, nonce len, "
+          "tag len, length residues, split shapes, shortcut)"),
+    assumptions=["OpenSSL 3.0 EVP AES-GCM, AES-CCM, CMAC and AES-ECB are correct", "CCM with declared lengths different from the injected ones is undocumented and not generated"],
+    targets=[dict(name="c14_aead", src="c14_aead.cpp", flavour="san", libs=CRYPTO)],
+    quick=[("c14_aead", "enum", dict(shards=8)),
+           ("c14_aead", "rc", dict(cases=120000, shards=16))],
+    thorough=[("c14_aead", "enum", dict(shards=16)),
+              ("c14_aead", "rc", dict(cases=3000000, shards=16))],
+    floor=dict(quick=5000, thorough=50000),
+)
+
 # ---------------------------------------------------------------- manifest text
 HOOK_COMMITS = ["b37444c", "e1637c5"]
 NOT_APPLICABLE = {}
@@ -255,4 +273,12 @@ MANIFEST_TEXT["C17"] = dict(
           "decrypting under keys derived from the new randoms)."),
     design_ref="DESIGN.md section 4, C17",
     note="exhaustive only to the stated depth and id-universe size; larger capacities are sampled by random histories",
+)
+
+MANIFEST_TEXT["C14"] = dict(
+    text=("Generated differential testing of the three AEAD modes over every AES and GHASH implementation against independent implementations, "
+          "with arbitrary splits of AAD and message across calls (the streaming claim), context reuse and the EAX saved-state shortcuts, plus "
+          "negative checks: any generated single-bit change must fail check_tag, forbidden CCM parameters must be refused by reset."),
+    design_ref="DESIGN.md section 4, C14",
+    note="trusts OpenSSL EVP (GCM, CCM, CMAC, AES); EAX composition written in the harness from the EAX paper",
 )
